@@ -57,6 +57,40 @@ func c06Once(c *Ctx, r *Report, a *Anchors) {
 			r.check("C06.ONCE", fmt.Sprintf("%s: constructed error #%d (%s) is the only entry of this evaluation", fnName(fn), k, callee.Name()), call.Pos(), empty,
 				"the accumulator may already hold entries here ("+why+"): a failure that was already reported gets a second entry at the same path")
 		}
+		// a fresh list made of one constructed error (return []error{resWarnp(..)}): the only entry by construction,
+		// unless the list is then appended to an accumulator (the case above, counted there)
+		for _, b := range fn.Blocks {
+			for _, in := range b.Instrs {
+				sl, ok := in.(*ssa.Slice)
+				if !ok || !isErrSlice(sl.Type()) || sl.Referrers() == nil {
+					continue
+				}
+				elems, ok := sliceLitElems(sl)
+				if !ok || len(elems) != 1 {
+					continue
+				}
+				cons, ok := stripIface(elems[0]).(*ssa.Call)
+				if !ok {
+					continue
+				}
+				callee := cons.Call.StaticCallee()
+				if callee == nil || callee.Signature.Recv() != nil || !c.alwaysStarError(callee) {
+					continue
+				}
+				appended := false
+				for _, ref := range *sl.Referrers() {
+					if ci, isCall := ref.(*ssa.Call); isCall && isBuiltinCall(ci, "append") {
+						appended = true
+					}
+				}
+				if appended {
+					continue
+				}
+				n++
+				k++
+				r.check("C06.ONCE", fmt.Sprintf("%s: constructed error #%d (%s) is the only entry of this evaluation", fnName(fn), k, callee.Name()), sl.Pos(), true, "")
+			}
+		}
 	}
 	r.floor("C06.ONCE", "appends of constructed errors in the field / reflection resolver and dispatcher", n, 5)
 }
